@@ -98,9 +98,9 @@ func (p Path) RootName() string {
 	case *ssa.Const:
 		return "const:" + r.String()
 	case *ssa.MakeMap:
-		return "make:map"
+		return "make:map" + varNameOf(r)
 	case *ssa.MakeSlice:
-		return "make:slice"
+		return "make:slice" + varNameOf(r)
 	case *ssa.MakeChan:
 		return "make:chan"
 	case *ssa.MakeClosure:
@@ -709,4 +709,31 @@ func FieldByName(t types.Type, name string) *types.Var {
 		}
 	}
 	return nil
+}
+
+// varNameOf: "(name)" of the source variable a freshly made value is first
+// stored into, when there is exactly one such named cell.
+func varNameOf(v ssa.Value) string {
+	refs := v.Referrers()
+	if refs == nil {
+		return ""
+	}
+	name := ""
+	for _, r := range *refs {
+		if st, ok := r.(*ssa.Store); ok && st.Val == v {
+			if a, ok := st.Addr.(*ssa.Alloc); ok && a.Comment != "" {
+				if name != "" && name != a.Comment {
+					return ""
+				}
+				name = a.Comment
+			}
+		}
+		if dr, ok := r.(*ssa.DebugRef); ok {
+			_ = dr
+		}
+	}
+	if name == "" {
+		return ""
+	}
+	return "(" + name + ")"
 }
